@@ -22,10 +22,13 @@ pub fn hex_encode(b: &[u8]) -> String {
     s
 }
 
-/// Deterministic payload shared with the script generators: byte i of payload (seed, len)
+/// Deterministic payload shared with the script generators and the Coq model (Blob/Bytes.v gen_data):
+/// byte i = (seed_byte(i mod 8) + 7 i + 13 (i >> 8)) mod 256, so that payloads of at least as many bytes as the
+/// seed has significant bytes identify their seed
 pub fn gen_data(seed: u64, len: usize) -> Vec<u8> {
+    let sb = seed.to_le_bytes();
     (0..len)
-        .map(|i| ((seed.wrapping_mul(131)).wrapping_add((i as u64) * 7).wrapping_add(((i as u64) >> 8) * 13) & 0xff) as u8)
+        .map(|i| ((sb[i % 8] as u64).wrapping_add((i as u64) * 7).wrapping_add(((i as u64) >> 8) * 13) & 0xff) as u8)
         .collect()
 }
 
